@@ -30,8 +30,10 @@ HasData(out) == \E i \in 1 .. Len(out) : out[i].o = "write" /\ out[i].f.type = "
 NoRaise(e) == \A i \in 1 .. Len(e.out) : e.out[i].o = "raised" => e.upraise = 1
 Apply(e, r, ins) == /\ SameOut(e.out, r.out) /\ NoRaise(e)
                     /\ h' = r.h
-                    /\ obs' = ObsStep(obs, ins, e.out)
-                    /\ o4' = Obs4Step(o4, ins, e.out)
+                    \* (the observers also see the end of sends whose caller was cancelled - the link reports it, only the caller does not hear it)
+                    /\ LET full == e.out \o SelectSeq(r.out, LAMBDA o : o.o = "done" /\ o.id \in canc) IN
+                         /\ obs' = ObsStep(obs, ins, full)
+                         /\ o4' = Obs4Step(o4, ins, full)
                     /\ tw' = IF HasData(e.out) THEN e.t ELSE tw
                     /\ UNCHANGED canc
 
